@@ -566,6 +566,10 @@ class Verifier(Engine):
             if p in callee.params and not isinstance(callee.params[p], TObj):
                 v = coerce(self, v, callee.params[p])
             env[p] = v
+        # closure variables of a nested function: taken from the caller's scope by name
+        for p in callee.params:
+            if p not in env and p in st.env:
+                env[p] = st.env[p]
         return env
 
     def _translate(self, callee: Contract, recv_path, p: str) -> tuple:
